@@ -1,7 +1,12 @@
 """C30 driver: compile a list of jobs in THIS process (run as a fresh subprocess per history
 segment, with the PYTHONHASHSEED the parent chose) and print one JSON line with the digests.
 
-job = {"key": str, "kind": "c"|"ir", "src": C text | [irgen seed, types], "march": str, "level": str}
+job = {"key": str, "kind": "c"|"ir"|"asm", "src": C text | [irgen seed, types] | assembly text, "march": str,
+       "level": str}
+The job file also carries "churn": a seed for heap churn — before the first compile (and a little between
+compiles) many objects of assorted sizes are allocated and freed in a seeded random order, so that the
+ADDRESS order of later objects differs from process to process (PYTHONHASHSEED alone does not scramble
+id()-based hashes, which is what sets of ppci objects iterate by).
 result = {"key", "ok": bool, "exc": str,
           "ir": sha256 of the projected IR module handed to the back-end (harness/project_ir.py: values are
                 numbered, so the process-global counters ppci puts into value NAMES do not matter),
@@ -24,6 +29,59 @@ def _h(b):
     return hashlib.sha256(b if isinstance(b, bytes) else b.encode()).hexdigest()[:24]
 
 
+_keep = []
+
+
+class _Plain:
+    """Instances with a __dict__, like ppci's Register / Instruction / graph node objects."""
+
+    def __init__(self, n):
+        self.name = "x"
+        self.num = n
+        if n % 3:
+            self.color = n
+
+
+class _Slots2:
+    __slots__ = ("a", "b")
+
+
+class _Slots5:
+    __slots__ = ("a", "b", "c", "d", "e")
+
+
+def churn(seed, rounds=250000):
+    """Scramble the allocator's free lists: allocate objects of assorted sizes, free a random subset."""
+    rng = random.Random(seed)
+    pool = []
+    for _ in range(rounds):
+        c = rng.random()
+        if c < 0.4:      # the size classes ppci's own small objects live in
+            k = rng.randrange(4)
+            pool.append(_Plain(len(pool)) if k < 2 else _Slots2() if k == 2 else _Slots5())
+            continue
+        c = rng.random()
+        if c < 0.35:
+            pool.append([None] * rng.randrange(1, 40))
+        elif c < 0.55:
+            pool.append({k: object() for k in range(rng.randrange(1, 12))})
+        elif c < 0.75:
+            pool.append(bytearray(rng.randrange(8, 600)))
+        elif c < 0.9:
+            pool.append(tuple(object() for _ in range(rng.randrange(1, 9))))
+        else:
+            pool.append(set(range(rng.randrange(1, 30))))
+        if pool and rng.random() < 0.45:
+            del pool[rng.randrange(len(pool))]
+    # free the rest in a random order, keeping a random subset alive: the free lists of every size class
+    # now hand out addresses in an order that depends on the seed
+    rng.shuffle(pool)
+    keep = [o for o in pool if rng.random() < 0.3]
+    while pool:
+        pool.pop()
+    _keep.append(keep)
+
+
 def compile_job(job, want_steps=True):
     import logging
 
@@ -34,6 +92,17 @@ def compile_job(job, want_steps=True):
 
     out = {"key": job["key"], "ok": True, "exc": "", "ir": "", "isel": {}, "obj": "", "img": "", "alloc": {}}
     recs = []
+    if job["kind"] == "asm":
+        try:
+            obj = api.asm(io.StringIO(job["src"]), job["march"])
+            f = io.StringIO()
+            obj.save(f)
+            out["obj"] = _h(f.getvalue())
+            out["img"] = out["obj"]
+        except Exception as e:
+            out["ok"] = False
+            out["exc"] = type(e).__name__
+        return out
     try:
         if job["kind"] == "c":
             m = api.c_to_ir(io.StringIO(job["src"]), job["march"])
@@ -87,8 +156,15 @@ def compile_job(job, want_steps=True):
 def main():
     jobs = json.load(open(sys.argv[1]))
     res = []
-    for job in jobs["jobs"]:
+    seed = jobs.get("churn")
+    if seed is not None:
+        import ppci.api  # noqa: F401  (first, so that the import does not use up the scrambled free lists)
+
+        churn(seed)
+    for n, job in enumerate(jobs["jobs"]):
         res.append(compile_job(job, jobs.get("steps", True)))
+        if seed is not None:
+            churn(seed * 1000 + n, rounds=20000)
     json.dump({"hashseed": os.environ.get("PYTHONHASHSEED", ""), "results": res}, open(sys.argv[2], "w"))
 
 
